@@ -297,50 +297,6 @@ vm_harness! {
     }
 }
 
-// ---- C07 (b): dropping a thread frees its objects ----
-// Liveness of an allocation is a solver-side predicate; a native replay cannot observe it,
-// so under playback the predicate is vacuous (a failure of these harnesses is reported as
-// "not reproducible natively", exit 2, see DESIGN).
-#[cfg(not(abra_verif_playback))]
-pub(super) fn live<T>(p: *const T) -> bool {
-    kani::mem::can_dereference(p)
-}
-#[cfg(abra_verif_playback)]
-pub(super) fn live<T>(_p: *const T) -> bool {
-    panic!("liveness predicate is not observable in a native replay")
-}
-
-vm_harness! {
-    #[kani::unwind(4)]
-    fn c07_thread_drop_frees_heap() {
-        let mut t = mk_thread(vec![Instr::Stop], vec![], vec![]);
-        let s = mk_string(&mut t, [b'a', b'b', 0], 2);
-        let ps = s.0 as *const StringObject;
-        assert!(live(ps));
-        drop(t);
-        assert!(!live(ps), "string freed with its thread");
-        kani::cover!(true, "req: reachable");
-    }
-}
-#[kani::proof]
-#[kani::unwind(4)]
-fn c07_runtime_drop_frees_string_constants() {
-    // the shared read-only block owns the program's string constants
-    let mut shared = mk_shared(vec![Instr::Stop], vec![], vec![]);
-    let mut text = String::with_capacity(4);
-    text.push('h');
-    text.push('i');
-    let obj = StringObject::new_static(text, &mut shared);
-    shared.static_strings.push(obj);
-    let p = obj as *const StringObject;
-    assert!(live(p));
-    let arc = Arc::new(shared);
-    let (sender, receiver) = mpsc::channel();
-    std::mem::forget(receiver);
-    let t = VmGreenThread::new(arc.clone(), sender);
-    drop(t);
-    assert!(live(p), "constants stay alive while the runtime's shared block is alive");
-    drop(arc);
-    assert!(!live(p), "dropping the last owner releases the string constants");
-    kani::cover!(true, "req: reachable");
-}
+// ---- C07 (b): dropping a thread / the shared block frees its objects: decided on the MIR level (engine M2, checks/c07.py).
+// Under Kani the liveness of a freed allocation is not observable (kani::mem::can_dereference on freed memory is an
+// "unsupported construct" failure) and dropping a VmGreenThread drags std's recursive mpsc::Sender drop glue in (> 900 s).
